@@ -4,7 +4,7 @@ C08 — model of the two column-type parsers that read type descriptions sent by
 
 * `deserType`  ← `deser_type_generic` (`scylla-cql/src/frame/response/result.rs:523-645`, after the `fix:` commits
   c6419cc (depth limit `MAX_TYPE_NESTING_DEPTH = 128`) and 177d90d (tuple / UDT field vectors are not pre-allocated)).
-  The Rust `depth` argument is `129 - fuel`: `depth > 128` ⇔ `fuel = 0`.  Structural recursion on `fuel`
+  The Rust `depth` argument is `TOP_FUEL - fuel` with `TOP_FUEL = MAX_TYPE_NESTING_DEPTH + 1`: `depth > MAX` ⇔ `fuel = 0`.  Structural recursion on `fuel`
   (nesting) and on the element count (`loopN`): this is the termination proof.
 * `customParse` ← `CustomTypeParser::parse` (`custom_type_parser.rs`, after 412bc6c (iterator fused after its first
   error), c6419cc (depth limit in `do_parse`), 3ffdc84 (parameters collected once) and 2a278cb (no zero dimension)).
@@ -365,18 +365,21 @@ def customDepthBound : Nat := MAX_TYPE_NESTING_DEPTH
 
 /-! ### binary type descriptions -/
 
-/-- `deser_type_generic` with `fuel = 129 - depth`. -/
+/-- Levels `deser_type_generic` accepts: `depth` runs from 0 and the call fails when `depth > MAX_TYPE_NESTING_DEPTH`. -/
+def TOP_FUEL : Nat := MAX_TYPE_NESTING_DEPTH + 1
+
+/-- `deser_type_generic` with `fuel = TOP_FUEL - depth`. -/
 def deserType : Nat → M Ty
   | 0 => fail "type.depth"
   | fuel + 1 => do
-    noteDepth (129 - fuel)
+    noteDepth (TOP_FUEL - fuel)
     let id ← tag "type.id" readShort
     match id with
     | 0x0000 => do
       let str ← tag "type.customname" readString
       let uni ← getUni
       match customParse uni str with
-      | .ok t => do noteDepth (129 - fuel + customDepthBound); pure t
+      | .ok t => do noteDepth (TOP_FUEL - fuel + customDepthBound); pure t
       | .error (.kind e) => fail ("type.ct." ++ e)
       | .error (.panic site) => panicAt site
       | .error (.fuel w) => fail ("type.ct.MODEL-FUEL." ++ w)
@@ -403,6 +406,6 @@ def deserType : Nat → M Ty
       | none => fail "type.unknownid"
 
 /-- `deser_type_owned` / `deser_type_borrowed`: depth 0. -/
-def deserTypeTop : M Ty := deserType 129
+def deserTypeTop : M Ty := deserType TOP_FUEL
 
 end ScyllaVerif.C08
